@@ -1,8 +1,10 @@
 """Regenerate build/gen/Gen_*.v from the current /repo working tree."""
 from __future__ import annotations
 
+import glob
 import hashlib
 import importlib
+import json
 import os
 import sys
 
@@ -22,63 +24,6 @@ def sha_of(path):
     return hashlib.sha256(open(path, "rb").read()).hexdigest()
 
 
-def core_translation():
-    import pydrex.core as core
-
-    S = "scalar"
-    specs = [
-        Spec(core, "get_crss", [("phase", "enum", None), ("fabric", "enum", None)]),
-        Spec(core, "_get_slip_invariants",
-             [("strain_rate", "arr", (3, 3)), ("orientation", "arr", (3, 3))]),
-        Spec(core, "_get_deformation_rate",
-             [("phase", "enum", None), ("orientation", "arr", (3, 3)), ("slip_rates", "arr", (4,))]),
-        Spec(core, "_get_slip_rate_softest",
-             [("deformation_rate", "arr", (3, 3)), ("velocity_gradient", "arr", (3, 3))]),
-        Spec(core, "_get_slip_rates_olivine",
-             [("invariants", "arr", (4,)), ("slip_indices", "perm4", None),
-              ("crss", "static", None), ("deformation_exponent", S, None)]),
-        Spec(core, "_get_orientation_change",
-             [("orientation", "arr", (3, 3)), ("velocity_gradient", "arr", (3, 3)),
-              ("deformation_rate", "arr", (3, 3)), ("slip_rate_softest", S, None)]),
-        Spec(core, "_get_strain_energy",
-             [("crss", "static", None), ("slip_rates", "arr", (4,)),
-              ("slip_indices", "perm4", None), ("slip_rate_softest", S, None),
-              ("stress_exponent", S, None), ("deformation_exponent", S, None),
-              ("nucleation_efficiency", S, None)]),
-        Spec(core, "_get_rotation_and_strain",
-             [("phase", "enum", None), ("fabric", "enum", None),
-              ("orientation", "arr", (3, 3)), ("strain_rate", "arr", (3, 3)),
-              ("velocity_gradient", "arr", (3, 3)), ("stress_exponent", S, None),
-              ("deformation_exponent", S, None), ("nucleation_efficiency", S, None)],
-             inline=["get_crss"]),
-    ]
-    tr = Translation(core, specs)
-    # get_crss itself is a table (Gen_tables); it is only inlined here.
-    tr.trace_all([
-        ("_get_slip_invariants", {}),
-        ("_get_deformation_rate", {}),
-        ("_get_slip_rate_softest", {}),
-        ("_get_orientation_change", {}),
-        ("_get_rotation_and_strain", {}),
-    ])
-    # derivatives at n_grains = 1, 2, 3
-    for n in (1, 2, 3):
-        spec = Spec(core, "derivatives",
-                    [("regime", "enum", None), ("phase", "enum", None), ("fabric", "enum", None),
-                     ("n_grains", "const", n),
-                     ("orientations", "arr", (n, 3, 3)), ("fractions", "arr", (n,)),
-                     ("strain_rate", "arr", (3, 3)), ("velocity_gradient", "arr", (3, 3)),
-                     ("deformation_gradient_spin", "arr", (3, 3)),
-                     ("stress_exponent", S, None), ("deformation_exponent", S, None),
-                     ("nucleation_efficiency", S, None), ("gbm_mobility", S, None),
-                     ("volume_fraction", S, None)],
-                    cname=f"k_derivatives_n{n}")
-        tr.specs["derivatives"] = spec
-        tr.ensure("derivatives", {})
-        del tr.specs["derivatives"]
-    return tr, core.__file__
-
-
 def write_if_changed(path, text):
     if os.path.exists(path) and open(path).read() == text:
         return False
@@ -90,11 +35,26 @@ def write_if_changed(path, text):
 def main(outdir):
     os.makedirs(outdir, exist_ok=True)
     status = {}
-    for name, fn in [("Gen_core", core_translation)]:
-        tr, src = fn()
-        text = emit_coq.emit_module(tr, os.path.relpath(src, REPO), sha_of(src))
-        status[name] = write_if_changed(os.path.join(outdir, name + ".v"), text)
-    print(status)
+    errors = {}
+    only = os.environ.get("GEN_ONLY")
+    here = os.path.dirname(os.path.abspath(__file__))
+    for path in sorted(glob.glob(os.path.join(here, "specs_*.py"))):
+        modname = os.path.basename(path)[:-3]
+        if only and modname[len("specs_"):] not in only.split(","):
+            continue
+        try:
+            mod = importlib.import_module(modname)
+            for name, tr, src in mod.translations():
+                text = emit_coq.emit_module(tr, os.path.relpath(src, REPO), sha_of(src))
+                status[name] = write_if_changed(os.path.join(outdir, name + ".v"), text)
+        except Exception:  # fail closed, per module
+            import traceback
+            errors[modname] = traceback.format_exc()
+    print(json.dumps({"written": status, "errors": errors}))
+    if errors:
+        for k, v in errors.items():
+            sys.stderr.write(f"--- {k}\n{v}\n")
+        sys.exit(3)
 
 
 if __name__ == "__main__":
